@@ -85,6 +85,29 @@ def establishLoop (next : Int → Int) : Int → Nat → List Ev
     let (slept, nb) := sleepAndIncrease next b
     (match slept with | some d => [.sleep d] | none => []) ++ .attempt .retryable :: establishLoop next nb n
 
+/-- What the master answers to one procedure-state poll. -/
+inductive ProcAns where
+  | running | finished | exception | notFound
+  deriving DecidableEq, Repr
+
+/-- How an admin call (`CreateTable`, `DeleteTable`, `EnableTable`, `DisableTable`) ends once its
+request has been accepted: `exhausted` = the script ran out while the procedure was running. -/
+inductive ProcRes where
+  | ok | procException | notFound | exhausted
+  deriving DecidableEq, Repr
+
+/-- `checkProcedureWithBackoff` against scripted answers: ask; a final answer ends the call; while
+the procedure is running, wait and ask again. Result, number of polls sent, waits requested. -/
+def procLoop (next : Int → Int) : Int → List ProcAns → ProcRes × Nat × List Int
+  | _, [] => (.exhausted, 0, [])
+  | _, .finished :: _ => (.ok, 1, [])
+  | _, .exception :: _ => (.procException, 1, [])
+  | _, .notFound :: _ => (.notFound, 1, [])
+  | b, .running :: rest =>
+    let (slept, nb) := sleepAndIncrease next b
+    let r := procLoop next nb rest
+    (r.1, r.2.1 + 1, (match slept with | some d => [d] | none => []) ++ r.2.2)
+
 /-- `SendBatch`'s retry decision per failed round: `true` = some call asked for a back-off
 (RetryableError), `false` = only connection/region errors. -/
 structure BatchSt where
